@@ -81,6 +81,23 @@ class Certificate:
             to_return.append(psid_ssp["psid"])
         return tuple(to_return)
 
+    def permits_its_aid(self, its_aid: int) -> bool:
+        """
+        Check whether the certificate's application permissions cover an ITS-AID.
+
+        Parameters
+        ----------
+        its_aid : int
+            The ITS-AID (PSID) of the message to be signed or verified.
+
+        Returns
+        -------
+        bool
+            True if the ITS-AID is listed in appPermissions, False otherwise.
+        """
+        app_permissions = self.certificate["toBeSigned"].get("appPermissions", [])
+        return any(psid_ssp["psid"] == its_aid for psid_ssp in app_permissions)
+
     @staticmethod
     def as_clear_certificate() -> Certificate:
         """
